@@ -11,7 +11,7 @@ TRUSTED_BASE = [
     "hand-written Gallina model coq/theories/{Base,Text,Hex,HexMore,Label,Sodg,Esort,Print,Export,Slice,Merge,Serial,Script}.v and reference model Spec.v/SpecDec.v, tied to /repo by the correspondence check (differential testing on generated histories, corpus and exhaustive tiny-domain tours; not proof)",
     "extraction: ExtrOcamlBasic only (bool, option, unit, list, prod, sumbool, sumor -> OCaml built-ins; andb/orb inlined); nat/positive/N/Z stay inductive; OCaml 4.13.1 ocamlopt; cross-checked against vm_compute on 120 histories at every model build (tools/xcheck.py)",
     "unverified glue: model/conv.ml, model/modeldrv.ml (op parsing, tabulation of the reference state, bfs tour), harness/src/main.rs, lib/*.py (generators, tracker, snapshot parsing, abs_state, oracles, shrinking, audit)",
-    "modelled, not verified: emap/micromap/microstack semantics (incl. emap's private high-water mark), bincode 1.3.3, serde derive layout, regex, str::trim/split/from_str, hex::decode, xml-builder (no attribute escaping modelled), itertools::sorted, slice indexing, String::from_utf8, HashMap/HashSet as sets; Sodg::join() is not modelled (Unmodelled)",
+    "modelled, not verified: emap/micromap/microstack semantics (incl. emap's private high-water mark), bincode 1.3.3, serde derive layout, regex, str::trim/split/from_str, hex::decode, xml-builder (no attribute escaping modelled), itertools::sorted, slice indexing, String::from_utf8, HashMap/HashSet as sets; Sodg::join() and graphs with vacant slots: coq/theories/XJoin.v (conservative extension, XJoinFacts.v), run by the driver for every graph handle",
     "rustc/cargo stable, dev profile (debug assertions and overflow checks on); verif_snapshot() hook (cargo feature verif) as the window on the internal state",
 ]
 
